@@ -199,6 +199,9 @@ class ThreadSched:
             c.exc = e
         finally:
             sys.settrace(None)
+            # from here on this thread is no longer a simulated client: any lock it meets while
+            # winding down (threading's own bookkeeping) must block for real, not hand a baton on
+            self._idents.pop(_thread.get_ident(), None)
             c.done = True
             live = [x for x in self.clients if not x.done]
             if live:
